@@ -44,8 +44,8 @@ def _expand(hrp):
     return [ord(x) >> 5 for x in hrp] + [0] + [ord(x) & 31 for x in hrp]
 
 
-def mk_bech32(hrp, data):
-    pm = _polymod(_expand(hrp) + data + [0] * 6) ^ 1
+def mk_bech32(hrp, data, const=1):
+    pm = _polymod(_expand(hrp) + data + [0] * 6) ^ const
     chk = [(pm >> 5 * (5 - i)) & 31 for i in range(6)]
     return hrp + '1' + ''.join(CHARSET[d] for d in data + chk)
 
@@ -274,6 +274,11 @@ def generate(rng, tier, boost):
             for pos in (0, 1, 2, len(data) // 2, len(data) - 2):
                 for ch in 'bio':
                     dec(hrp, crafted_bad_char(hrp, data, pos, ch))
+    # strings whose checksum is right for ANOTHER constant than BIP173's 1 (Bech32m's 0x2bc830a3, 0, 2, ...)
+    for hrp in std + ['a1']:
+        for const in (0x2bc830a3, 0, 2, 3, 0x3fffffff, 1 << 29):
+            for ver, n in ((0, 20), (0, 32), (1, 32), (16, 2)):
+                dec(hrp, mk_bech32(hrp, [ver] + to5(rbytes(rng, n)), const))
     # one prefix being the beginning of another: an address under "bc1x" / "bcq" / "b" is not an
     # address under "bc" (the human-readable part is everything before the LAST separator)
     for hrp in std:
